@@ -40,7 +40,7 @@ Theorem C06_progress_only_over_verified_filters :
        let matched := matched_hashes w active limit (m_filters m) (m_hashes m) in
        fo_ban o = 0 /\ fo_min o = fw_min w + N.of_nat limit /\
        fo_record o = match matched with [] => None | _ => Some (m_start m, N.of_nat limit, map (fun h => (h, h =? tip)) matched) end /\
-       fo_bump o = match matched with [] => if fw_mem_empty w then Some (fw_min w + N.of_nat limit) else None | _ => None end).
+       fo_bump o = match matched with [] => if fw_mem_empty w && negb (fw_db_pending w) then Some (fw_min w + N.of_nat limit) else None | _ => None end).
 Proof. exact execute_cases. Qed.
 Print Assumptions C06_progress_only_over_verified_filters.
 
